@@ -5,13 +5,13 @@ NOTES = ("All checks are generated-input search against explicit oracles (proper
 NOT_APPLICABLE = {}
 CHECKS = {
     "C01": {
-        "text": "Thousands of generated (schema, frame) pairs per run (data first, schema derived with check arguments on/next to the observed boundaries, then repaired to conforming and re-tightened by one mutation) are validated eagerly and lazily and the accept/reject verdict is compared in both directions with an independent pure-Python reference model of the declarative vocabulary; on accept the returned object must equal the input. Two further families: string checks whose arguments are enumerated from small grids (every None/0/1 str_length bound, empty prefixes, anchored patterns), and validate -> edit the returned object in place -> validate again, where the second verdict must equal the reference verdict on the edited table. Exploration: no absence claim beyond the cases generated.",
+        "text": "Thousands of generated (schema, frame) pairs per run (data first, schema derived with check arguments on/next to the observed boundaries, then repaired to conforming and re-tightened by one mutation) are validated eagerly and lazily and the accept/reject verdict is compared in both directions with an independent pure-Python reference model of the declarative vocabulary; on accept the returned object must equal the input. Two further families: string checks whose arguments are enumerated from small grids (every None/0/1 str_length bound, empty prefixes, anchored patterns), and validate -> edit the returned object in place -> validate again, where the second verdict must equal the reference verdict on the edited table. Exploration: no absence claim beyond the cases generated. Round 3: a nested_unique family (several joint-uniqueness column sets, some naming only absent optional columns) and user-written row-wise dataframe checks made by one factory.",
         "design_ref": "DESIGN.md §2 C01, §1.3-1.4",
         "note": "Trusts harness/refmodel.py as the reading of the docs (conventions listed in DESIGN §6); regions where the docs define no semantics are skipped and counted in evidence.",
         "technique": "Hypothesis generators + independent reference model (differential, both directions)",
     },
     "C02": {
-        "text": "Generated multi-violation (schema, frame) pairs: lazy raises iff eager raises, the eager error is among the lazy errors, error_counts equal the per-reason number of collected errors, and the lazy failure_cases table equals the reference model's offending (column, row label, value) multiset plus one scalar entry per frame-level violation; the same oracle on polars DataFrame / LazyFrame (full depth), and lazy-iff-eager + eager-error-among-lazy-errors under SCHEMA_ONLY and DATA_ONLY. Exploration level.",
+        "text": "Generated multi-violation (schema, frame) pairs: lazy raises iff eager raises, the eager error is among the lazy errors, error_counts equal the per-reason number of collected errors, and the lazy failure_cases table equals the reference model's offending (column, row label, value) multiset plus one scalar entry per frame-level violation; the same oracle on polars DataFrame / LazyFrame (full depth), and lazy-iff-eager + eager-error-among-lazy-errors under SCHEMA_ONLY and DATA_ONLY. Exploration level. Round 3: a lazy_coerce family - metamorphic: coercing a coercible Index by hand before validating does not change the lazy report (errors, cells, row labels, error_counts) of a frame that also has a failing column coercion and row-level violations.",
         "design_ref": "DESIGN.md §2 C02",
         "note": "Trusts the reference model and the documented layout of SchemaErrors.failure_cases; 6 recorded known findings are excluded by narrow predicates; report exactness is not scored for duplicated labels / overlapping regex columns / checks run on wrong-dtype data.",
         "technique": "Hypothesis generators + reference model, lazy-vs-eager differential",
@@ -24,7 +24,7 @@ CHECKS = {
         "technique": "Hypothesis generators + fixpoint/round-trip oracle + reference model",
     },
     "C04": {
-        "text": "The same parser-option generator drives DataFrameSchema, SeriesSchema(+Index), standalone Column, Index and MultiIndex component validation (pass, eager fail, lazy fail, inplace on/off) on pandas and DataFrameSchema/Column/DataFrameModel on polars DataFrame and LazyFrame; a full value snapshot of the caller's object before the call must equal the snapshot after it and the returned container kind must equal the input kind. Exploration.",
+        "text": "The same parser-option generator drives DataFrameSchema, SeriesSchema(+Index), standalone Column, Index and MultiIndex component validation (pass, eager fail, lazy fail, inplace on/off) on pandas and DataFrameSchema/Column/DataFrameModel on polars DataFrame and LazyFrame; a full value snapshot of the caller's object before the call must equal the snapshot after it and the returned container kind must equal the input kind. Exploration. Round 3: pairs whose Index(coerce=True) really converts the labels together with row-level violations (mostly lazy), and parser cases with additional unrepaired violations.",
         "design_ref": "DESIGN.md §2 C04",
         "note": "Trusts harness/fp.py:snapshot (cell-wise with NaN==NaN, dtypes, labels, index, name, attrs).",
         "technique": "Hypothesis generators + before/after snapshot invariant",
@@ -43,7 +43,7 @@ CHECKS = {
         "category": "fault_enumeration",
     },
     "C07": {
-        "text": "For 2-3 concurrent pandas/polars validate calls (shared or distinct schemas, cold DataFrameModel, user config_context) every call must return or raise exactly what it does alone, and config plus every schema fingerprint must be unchanged afterwards, under every single-preemption interleaving of each listed workload (exhaustive for that layer at pandera call/return granularity), a two-preemption grid, Hypothesis-generated multi-segment schedules, an overlap family (two-preemption schedules that park both threads inside the same pandera function, at call/return granularity and at source-line granularity for short functions), and a cold-process family (one freshly started interpreter per schedule: the scheduled calls are the first validations of the process, so backend registration and lazy imports are inside the explored window). The harness owns the schedule (sys.settrace parked threads).",
+        "text": "For 2-3 concurrent pandas/polars validate calls (shared or distinct schemas, cold DataFrameModel, user config_context) every call must return or raise exactly what it does alone, and config plus every schema fingerprint must be unchanged afterwards, under every single-preemption interleaving of each listed workload (exhaustive for that layer at pandera call/return granularity), a two-preemption grid, Hypothesis-generated multi-segment schedules, an overlap family (two-preemption schedules that park both threads inside the same pandera function, at call/return granularity and at source-line granularity for short functions), and a cold-process family (one freshly started interpreter per schedule: the scheduled calls are the first validations of the process, so backend registration and lazy imports are inside the explored window). The harness owns the schedule (sys.settrace parked threads). Round 3: a MultiIndex component as shared entry point (repeated level names in the data), a model whose compilation raises next to a cold healthy model, and two state invariants: no pandera module/class-level lock is held once a call has finished (a stalled thread blocked on such a lock is a deadlock violation decided from the lock state), and the interpreter-wide warnings filters are as before.",
         "design_ref": "DESIGN.md §2 C07",
         "note": "One thread runs at a time; the cold family covers single preemptions of two fixed workloads; preemption only at pandera call boundaries (not bytecodes); pandas/polars internals and the polars Rust pool are sequentialised; GIL builds only. Watchdog-stopped executions are inconclusive. One recorded known finding (module-global config context).",
         "technique": "deterministic schedule enumeration + Hypothesis schedules, differential against the solo run",
@@ -55,13 +55,13 @@ CHECKS = {
         "technique": "Hypothesis generators + differential pandas vs polars + reference model",
     },
     "C09": {
-        "text": "For the numpy, pandas (incl. pyarrow), polars and pyspark engines every key of the live equivalents tables, every registered and abstract dtype class/instance, documented spellings and all ordered pairs of them (about 3.9e5) are enumerated exhaustively, plus thousands of generated parameterisations and string aliases: resolution to a DataType, idempotence, agreement of the boxed native dtype with what the spelling denotes natively, self-recognition in check, Engine.dtype(str(t)) == t for primitive types; pairs: symmetric ==, equal hashes, no false equivalence, check never crossing kind/signedness/width.",
+        "text": "For the numpy, pandas (incl. pyarrow), polars and pyspark engines every key of the live equivalents tables, every registered and abstract dtype class/instance, documented spellings and all ordered pairs of them (about 3.9e5) are enumerated exhaustively, plus thousands of generated parameterisations and string aliases: resolution to a DataType, idempotence, agreement of the boxed native dtype with what the spelling denotes natively, self-recognition in check, Engine.dtype(str(t)) == t for primitive types; pairs: symmetric ==, equal hashes, no false equivalence, check never crossing kind/signedness/width. Round 3: an ambient family (fresh interpreter per case) resolves every spelling before and after an ambient change (decimal context rounding/precision, registration of user sub-classes of every registered data type) with an unchanged-run control: same class, equal, equally hashed, same equivalences.",
         "design_ref": "DESIGN.md §2 C09",
         "note": "Trusted base is native introspection (numpy dtype.kind/itemsize, pandas extension dtypes, pyarrow.types predicates, polars base_type, Spark typeName). Units of numpy datetimes and byte order not compared. Ten recorded known findings.",
         "technique": "exhaustive registry/pair enumeration + Hypothesis parameter and string generation against native-library introspection oracles",
     },
     "C10": {
-        "text": "For 40 pandas-engine and 31 polars-engine dtype instances Hypothesis draws Series/Index/column containers mixing exactly convertible, unconvertible, null and lossy elements. On success the result must keep length, labels and name, pass the dtype's own check, equal the inputs where conversion is exact, keep nulls and be idempotent; on failure the error must be a ParserError/DATATYPE_COERCION whose failure cases are exactly the unconvertible elements. Exploration.",
+        "text": "For 40 pandas-engine and 31 polars-engine dtype instances Hypothesis draws Series/Index/column containers mixing exactly convertible, unconvertible, null and lossy elements. On success the result must keep length, labels and name, pass the dtype's own check, equal the inputs where conversion is exact, keep nulls and be idempotent; on failure the error must be a ParserError/DATATYPE_COERCION whose failure cases are exactly the unconvertible elements. Exploration. Round 3: DateTime(to_datetime_kwargs={'format': ...}) as a target with its own classifier (after plain datetime targets were resolved in the same process); polars schema route under validation_depth DATA_ONLY / SCHEMA_AND_DATA.",
         "design_ref": "DESIGN.md §2 C10",
         "note": "Trusts the harness's own element classifier (exact/fail only for documented numpy/pandas/polars conversions) and coerce_value / singleton strict casts for lossy elements; null kinds compared as one value. Eight recorded known findings.",
         "technique": "Hypothesis generators per dtype, own element classifier as oracle, idempotence round trip",
@@ -79,7 +79,7 @@ CHECKS = {
         "technique": "enumeration of slots + Hypothesis round-trip / fixpoint / differential-verdict",
     },
     "C13": {
-        "text": "Hypothesis generates schema specs (22 dtypes, check chains of built-in/custom/registered checks, nullable/unique, sizes, Series/Column/Index/MultiIndex/DataFrame with regex columns, index schemas, joint unique, frame-level checks) and takes seeded draws from schema.strategy(size=n); every returned draw must be of the documented container type and pass the same schema's validate; a strategy crash on a schema an independent model shows satisfiable is a violation; a fresh-interpreter family exposes state-dependent strategies.",
+        "text": "Hypothesis generates schema specs (22 dtypes, check chains of built-in/custom/registered checks, nullable/unique, sizes, Series/Column/Index/MultiIndex/DataFrame with regex columns, index schemas, joint unique, frame-level checks) and takes seeded draws from schema.strategy(size=n); every returned draw must be of the documented container type and pass the same schema's validate; a strategy crash on a schema an independent model shows satisfiable is a violation; a fresh-interpreter family exposes state-dependent strategies. Round 3: a whole-series custom check without strategy whose outcome depends on the nulls (at least k non-null values) on nullable fields.",
         "design_ref": "DESIGN.md §2 C13",
         "note": "pandera's own validate is the acceptance oracle; draws go through Hypothesis ConjectureData with a fixed-constants provider; filter exhaustion is 'incomplete', never scored. Five recorded known findings.",
         "technique": "Hypothesis-generated schemas + seeded strategy draws + self-validation oracle + independent satisfiability model",
@@ -91,7 +91,7 @@ CHECKS = {
         "technique": "Hypothesis generators + exhaustive grid against a round-trip and exact-statistics oracle",
     },
     "C15": {
-        "text": "Generated transformation programs (1-5 requests from add/remove/select/rename/update_column(s)/set_index/reset_index, valid and invalid, with inverse pairs) run on pandas and polars schemas whose components carry every attribute; after each request pandera's result must equal, attribute by attribute and by fingerprint, the schema built from an independently written expected spec, accept the frame transformed by the paired dataframe operation, keep rejecting a frame violating one surviving constraint, and leave the receiver unchanged; invalid requests must raise SchemaInitError/ValueError.",
+        "text": "Generated transformation programs (1-5 requests from add/remove/select/rename/update_column(s)/set_index/reset_index, valid and invalid, with inverse pairs) run on pandas and polars schemas whose components carry every attribute; after each request pandera's result must equal, attribute by attribute and by fingerprint, the schema built from an independently written expected spec, accept the frame transformed by the paired dataframe operation, keep rejecting a frame violating one surviving constraint, and leave the receiver unchanged; invalid requests must raise SchemaInitError/ValueError. Round 3: the arguments passed to update_columns / set_index / reset_index must be unchanged after the call.",
         "design_ref": "DESIGN.md §2 C15",
         "note": "Expected-effect model written from the method docstrings; verdicts from pandera's validate on a deep copy; four recorded known findings (set/reset_index attribute loss and MultiIndex bookkeeping).",
         "technique": "Hypothesis program generation + constructor-built expected schema (differential) + paired frame operation (metamorphic)",
@@ -103,7 +103,7 @@ CHECKS = {
         "technique": "Hypothesis program generation, differential against the object API with a spec-side class-semantics resolver",
     },
     "C17": {
-        "text": "For generated function signatures (plain/method/classmethod/staticmethod, sync/async, defaults, *args, keyword-only, **kwargs), decorators (check_input/check_output/check_io/check_types with every getter form), call shapes and validation options, the decorated function is run against an independent reference (inspect.signature.bind + schema.validate per designated slot + the undecorated function): whether the body ran, what it saw at every parameter, the result or exception class, the caller's objects afterwards; a compact polars twin (DataFrame / LazyFrame, pandera.typing.polars annotations).",
+        "text": "For generated function signatures (plain/method/classmethod/staticmethod, sync/async, defaults, *args, keyword-only, **kwargs), decorators (check_input/check_output/check_io/check_types with every getter form), call shapes and validation options, the decorated function is run against an independent reference (inspect.signature.bind + schema.validate per designated slot + the undecorated function): whether the body ran, what it saw at every parameter, the result or exception class, the caller's objects afterwards; a compact polars twin (DataFrame / LazyFrame, pandera.typing.polars annotations). Round 3: one decorator object applied to two callables of different kinds and called in turn (shared family); a sample_state family (only sample= and random_state=, longer frames with one bad row) with numpy's global generator moved to a case-derived state during the decorated call.",
         "design_ref": "DESIGN.md §2 C17",
         "note": "Trusts schema.validate for the data verdict and inspect.signature.bind for binding; one recorded known finding (Union + lazy).",
         "technique": "Hypothesis-generated programs (source exec'd) + differential reference binding oracle",
@@ -115,13 +115,13 @@ CHECKS = {
         "technique": "Hypothesis metamorphic option variants + pure-Python reference model",
     },
     "C20": {
-        "text": "Generated (schema, frame) pairs with non-unique / non-default index labels x head/tail/sample/random_state (incl. 0, overlapping, aimed just inside/outside a violating row): the verdict must equal the reference verdict with row-attributable constraints evaluated on the independently computed selected positions and frame-level constraints on the whole table; the call returns all of D; same random_state => same outcome and report; head=len(D) == no option; DataFrameSchema / SeriesSchema / standalone Column on pandas, head/tail on polars DataFrame / LazyFrame. Exploration.",
+        "text": "Generated (schema, frame) pairs with non-unique / non-default index labels x head/tail/sample/random_state (incl. 0, overlapping, aimed just inside/outside a violating row): the verdict must equal the reference verdict with row-attributable constraints evaluated on the independently computed selected positions and frame-level constraints on the whole table; the call returns all of D; same random_state => same outcome and report; head=len(D) == no option; DataFrameSchema / SeriesSchema / standalone Column on pandas, head/tail on polars DataFrame / LazyFrame. Exploration. Round 3: a parsing family - metamorphic: whenever validate(D) and validate(D, head/tail/sample) both return, they return the same parsed object (coercion, defaults, added/filtered columns, custom parsers apply to the whole of D).",
         "design_ref": "DESIGN.md §2 C20",
         "note": "Sample positions obtained by sampling a row-id frame with the same random_state (pandas determinism); one recorded known finding (pandas de-duplicates selected rows by label).",
         "technique": "Hypothesis generators + reference model on independently computed row selection (metamorphic)",
     },
     "C18": {
-        "text": "Exhaustive enumeration of all 108 config_context option tuples at nesting depth 1-2 with an exception at every level and of all 108 documented env settings; Hypothesis for depth 3-4 nestings, entry styles, disabled-validation identity over every entry point and (S,D) depth decomposition against the reference model. Exploration: absence is not established beyond the enumerated finite parts.",
+        "text": "Exhaustive enumeration of all 108 config_context option tuples at nesting depth 1-2 with an exception at every level and of all 108 documented env settings; Hypothesis for depth 3-4 nestings, entry styles, disabled-validation identity over every entry point and (S,D) depth decomposition against the reference model. Exploration: absence is not established beyond the enumerated finite parts. Round 3: env_e2e also validates inside config_context(validation_depth=D) on top of every environment setting (context wins over environment, state restored).",
         "design_ref": "DESIGN.md §2 C18",
         "note": "Trusts dataclasses.asdict of pandera.config._CONTEXT_CONFIG/CONFIG as the observable config state; documented env semantics from docs/source/configuration.md.",
         "technique": "exhaustive enumeration + Hypothesis, model-stack oracle and reference-model depth decomposition",
